@@ -14,6 +14,9 @@ mod c20;
 mod c11;
 mod cli;
 mod ledger;
+mod impgen;
+mod c17;
+mod c16;
 
 pub struct Opts {
     pub seed: u64,
@@ -82,6 +85,8 @@ fn main() {
         "c20" => c20::run(&o),
         "c11" => c11::run(&o),
         "c11-child" => c11::child(&args[2..]),
+        "c17" => c17::run(&o),
+        "c16" => c16::run(&o),
         _ => {
             eprintln!("unknown property {}", prop);
             std::process::exit(2);
